@@ -40,9 +40,9 @@ impl Value {
 pub uninterp spec fn u16_of(b0: u8, b1: u8) -> int;
 // code addresses are modelled by offsets into the code
 #[verifier::external_body]
-fn ip_offset(ip: usize, n: u16) -> (r: usize) requires ip + n <= usize::MAX ensures r == ip + n { unimplemented!() }
+fn ip_offset(ip: usize, n: usize) -> (r: usize) requires ip + n <= usize::MAX ensures r == ip + n { unimplemented!() }
 #[verifier::external_body]
-fn ip_offset_back(ip: usize, n: u16) -> (r: usize) requires n <= ip ensures r == ip - n { unimplemented!() }
+fn ip_offset_back(ip: usize, n: usize) -> (r: usize) requires n <= ip ensures r == ip - n { unimplemented!() }
 
 // the core class store as far as the iteration protocol is concerned: the class whose instances end an iteration
 pub struct ClassStore { pub ghost stop_iter: int }
